@@ -6,5 +6,5 @@ prop=${2:-$(echo "$name" | cut -c1-3)}; tier=${3:-quick}
 d=$(mktemp -d /dev/shm/try-$name-XXXX)
 rsync -a --exclude .git --exclude __pycache__ --exclude '*.egg-info' /repo/ "$d/repo/"
 (cd "$d/repo" && git apply "$here/seeded/$name/patch.diff") || { rm -rf "$d"; exit 2; }
-VERIF_REPO="$d/repo" VERIF_NO_EVIDENCE=1 "$here/check" "$prop" --tier "$tier" 2>&1 | grep -E "^(VIOLATION|INCONCLUSIVE|  clause=|C[0-9]+ tier)" | cut -c1-400 | head -${LINES_MAX:-6}
+VERIF_REPO="$d/repo" VERIF_REPLAYS="$d/replays" VERIF_NO_EVIDENCE=1 "$here/check" "$prop" --tier "$tier" 2>&1 | grep -E "^(VIOLATION|INCONCLUSIVE|  clause=|C[0-9]+ tier)" | cut -c1-400 | head -${LINES_MAX:-6}
 rm -rf "$d"
